@@ -434,7 +434,7 @@ def main():
                     continue
             if lres != res:
                 dropped['disagree'] += 1
-                if len(samples) < 40:
+                if len(samples) < int(os.environ.get("XPATH_CORPUS_SAMPLES", "40")):
                     samples.append((di, cases[i][1], res, lres))
                 continue
             kept.append((di, cases[i][1], res))
